@@ -259,7 +259,17 @@ fn render_ws(ws: &Ws) -> Vec<SrcFile> {
             }
             body.push_str("}\n\n");
         }
-        let header: String = uses.into_iter().map(|u| format!("{u}\n")).collect();
+        // an import is an import whatever its visibility (a re-exported name is still a name this file refers to) and
+        // whatever attributes it carries
+        let header: String = uses
+            .into_iter()
+            .map(|u| match u.len() % 7 {
+                0 => format!("pub {u}\n"),
+                1 => format!("pub(crate) {u}\n"),
+                2 => format!("#[allow(unused_imports)]\n{u}\n"),
+                _ => format!("{u}\n"),
+            })
+            .collect();
         out.push(SrcFile { path: format!("src_root/{}/{}", ws.crates[*c], path), source: format!("{header}\n{body}") });
     }
     out
@@ -603,6 +613,12 @@ pub fn run(ctx: &Ctx) -> (Spec, Report) {
         // directory above the `src` nearest to the file
         let _ = std::fs::create_dir_all(root.join("outer/src/ws2/my-crate/src"));
         std::fs::write(root.join("outer/src/ws2/my-crate/src/lib.rs"), "#[typeshare]\npub struct QshapeDeep { pub a: u8 }\n").unwrap();
+        // two crates neither of whose names is spelled on the command line, in one run (a crate inside another one, walked
+        // from the inner one as `src` and `../src`): each file still belongs to the directory above its own `src`
+        let _ = std::fs::create_dir_all(root.join("nest/outer-c/inner-c/src"));
+        let _ = std::fs::create_dir_all(root.join("nest/outer-c/src"));
+        std::fs::write(root.join("nest/outer-c/src/lib.rs"), "#[typeshare]\npub struct QshapeOuter { pub a: u8 }\n").unwrap();
+        std::fs::write(root.join("nest/outer-c/inner-c/src/lib.rs"), "#[typeshare]\npub struct QshapeInner { pub a: u8 }\n").unwrap();
         let abs_deep = root.join("outer/src/ws2/my-crate").to_string_lossy().into_owned();
         let abs = root.join("ws/my-crate/src").to_string_lossy().into_owned();
         let shapes: Vec<(&str, String, Vec<&str>)> = vec![
@@ -623,6 +639,9 @@ pub fn run(ctx: &Ctx) -> (Spec, Report) {
             ("outer/src/ws2/my-crate", "src".into(), vec!["my-crate"]),
             ("outer", "src/ws2".into(), vec!["my-crate"]),
             ("ws", abs_deep.clone(), vec!["my-crate"]),
+            ("nest/outer-c/inner-c", "src ../src".into(), vec!["inner-c", "outer-c"]),
+            ("nest/outer-c/inner-c", "../src src".into(), vec!["inner-c", "outer-c"]),
+            ("nest/outer-c/inner-c/src", ". ../../src".into(), vec!["inner-c", "outer-c"]),
         ];
         let mut k = 0;
         for (cwd, dir, crates) in &shapes {
@@ -630,7 +649,8 @@ pub fn run(ctx: &Ctx) -> (Spec, Report) {
                 k += 1;
                 let cfg = LangCfg::basic(lang);
                 let out = root.join(format!("out{k}"));
-                let args = cli_args(lang, &cfg, true, &out, &[dir.as_str()]);
+                let dirs: Vec<&str> = dir.split(' ').collect();
+                let args = cli_args(lang, &cfg, true, &out, &dirs);
                 let o = run_bin(BinRun { cli: &cli, args: args.clone(), env: vec![], cwd: &root.join(cwd), strace: None, wall_limit: Duration::from_secs(30) });
                 rep.eval(1);
                 rep.count("cli_runs", 1);
@@ -652,7 +672,7 @@ pub fn run(ctx: &Ctx) -> (Spec, Report) {
     }
     let spec = Spec {
         level: "exploration",
-        rule: format!("{n} generated workspaces of 1-5 crates (names drawn from 10, with dashes and underscores, half of them beginning with the name of a third-party crate typeshare ignores - time-utils, http_types, stdx, ring-buffer, synapse; a third of them with an extra `<first crate>.v2` directory, whose name differs from an existing crate only behind a dot), 1-3 files per crate at depth 1-4 under src, 1-3 types per file (an eighth of the names all capitals), references to earlier types in the same file, the same crate (crate:: / super:: / use self:: / use crate::) and other crates (use single / grouped / nested / glob, qualified and deep qualified paths), a fifth of the types generic (half of those naming their parameter like a cross-crate type another item of the file imports) and referred to with a type argument that is itself a reference in any of those forms (`other::Page<third::models::deep::Item>`), wrapped in nothing / Vec / Option / HashMap value / Box<[..; 2]> / HashMap key (not the last type argument), a sixth of the types serde-renamed, a quarter of the reference-free ones written as newtype structs (shared as aliases), optional prefix and a foreign type mapping; real binary with --output-folder and, as twin, --output-file; TypeScript, Kotlin, Swift, Python (Scala and Go have no multi-file support); oracle: file set and names from the crate rule, every type in exactly its crate's file, union of definitions equals the single-file run, TS/Kotlin imports resolve to the defining file and name only defined types; plus one crate reached through 17 spellings of its path (from the workspace, from inside the crate, from inside src, through `..`, absolute, below an ancestor directory that is itself named src) whose output file must be named after the directory above src; distinct = (language, crate count, prefix?) and (language, reference form, renamed?)"),
+        rule: format!("{n} generated workspaces of 1-5 crates (names drawn from 10, with dashes and underscores, half of them beginning with the name of a third-party crate typeshare ignores - time-utils, http_types, stdx, ring-buffer, synapse; a third of them with an extra `<first crate>.v2` directory, whose name differs from an existing crate only behind a dot), 1-3 files per crate at depth 1-4 under src, 1-3 types per file (an eighth of the names all capitals), references to earlier types in the same file, the same crate (crate:: / super:: / use self:: / use crate::) and other crates (use single / grouped / nested / glob, qualified and deep qualified paths), a fifth of the types generic (half of those naming their parameter like a cross-crate type another item of the file imports) and referred to with a type argument that is itself a reference in any of those forms (`other::Page<third::models::deep::Item>`), wrapped in nothing / Vec / Option / HashMap value / Box<[..; 2]> / HashMap key (not the last type argument), a sixth of the types serde-renamed, a quarter of the reference-free ones written as newtype structs (shared as aliases), optional prefix and a foreign type mapping; real binary with --output-folder and, as twin, --output-file; TypeScript, Kotlin, Swift, Python (Scala and Go have no multi-file support); oracle: file set and names from the crate rule, every type in exactly its crate's file, union of definitions equals the single-file run, TS/Kotlin imports resolve to the defining file and name only defined types; plus one crate reached through 17 spellings of its path (from the workspace, from inside the crate, from inside src, through `..`, absolute, below an ancestor directory that is itself named src) and a crate nested in another one, both walked in one run through spellings that name neither (`src ../src`), whose output file must be named after the directory above src; distinct = (language, crate count, prefix?) and (language, reference form, renamed?)"),
         assumptions: vec![
             "`use .. as ..` renames are outside the stated domain and not generated".into(),
             "extra imports (a glob brings in every type of the crate) are allowed as long as the module defines them".into(),
